@@ -79,9 +79,49 @@ def compile_goto(ob, scratch, files, log):
     return out
 
 
+def false_loops(gb, scratch, log):
+    """ids of loops whose back edge is `IF 0 != 0 THEN GOTO` (the do { } while (0) of statement macros): such loops nest inside
+    loops carrying contracts and must be unwound (once) before --apply-loop-contracts.  Loop numbers are the ordinal of the
+    back edge inside its function; cross-checked against --show-loops, mismatch -> ToolError."""
+    rc, so, se, to, dt = run(["goto-instrument", "--show-goto-functions", gb], scratch, 300, 8, log=None)
+    if rc != 0 or to:
+        raise ToolError("goto-instrument --show-goto-functions failed")
+    rc2, so2, se2, to2, dt2 = run(["goto-instrument", "--show-loops", gb], scratch, 300, 8, log=None)
+    listed = {}
+    for m in re.finditer(r"^Loop ([\w$:.]+)\.(\d+):", so2, flags=re.M):
+        listed[m.group(1)] = listed.get(m.group(1), 0) + 1
+    ids, fn, labels, n = [], None, set(), 0
+    counts = {}
+    for line in so.splitlines():
+        m = re.match(r"^([\w$:.]+) /\* ([\w$:.]+) \*/$", line)
+        if m:
+            fn, labels, n = m.group(2), set(), 0
+            continue
+        if fn is None:
+            continue
+        m = re.match(r"^\s+(\d+): ", line)
+        if m:
+            labels.add(m.group(1))
+        m = re.search(r"(?:IF (.*) THEN )?GOTO (\d+)\s*$", line)
+        if m and m.group(2) in labels:      # backward jump = loop back edge
+            if m.group(1) is not None and re.fullmatch(r"0 (?:≠|!=) 0", m.group(1).strip()):
+                ids.append("%s.%d" % (fn, n))
+            n += 1
+            counts[fn] = n
+    for f, k in listed.items():
+        if counts.get(f, 0) != k:
+            raise ToolError("loop numbering cross-check failed for %s: %d back edges vs %d loops listed" % (f, counts.get(f, 0), k))
+    return ids
+
+
 def instrument(ob, scratch, gb, log):
     cur = gb
     step = 0
+    if ob.get("unwind_false_loops"):
+        ids = false_loops(cur, scratch, log)
+        if ids:
+            ob = dict(ob)
+            ob["pre_unwindset"] = list(ob.get("pre_unwindset", [])) + [i + ":1" for i in ids]
     if ob.get("pre_unwindset"):
         nxt = os.path.join(scratch, "u.gb")
         cmd = ["goto-instrument", "--unwindset", ",".join(ob["pre_unwindset"]), "--unwinding-assertions", cur, nxt]
@@ -149,8 +189,9 @@ def check(ob, scratch, gb, log):
     if results is None:
         why = "; ".join(msgs)[-2000:] or (se or so)[-2000:]
         return {"status": "error", "seconds": dt, "why": "cbmc gave no result list (rc=%s): %s" % (rc, why)}
-    if any("out of memory" in m for m in msgs) or any(r.get("status") == "ERROR" for r in results):
-        return {"status": "error", "seconds": dt, "why": "solver ran out of memory / returned ERROR for some properties"}
+    # only SUCCESS and FAILURE are verdicts; ERROR / UNKNOWN (solver gave up on that property) decide nothing
+    if any("out of memory" in m for m in msgs) or any(r.get("status") not in ("SUCCESS", "FAILURE") for r in results):
+        return {"status": "error", "seconds": dt, "why": "solver ran out of memory / returned ERROR or UNKNOWN for some properties"}
     for m in msgs:
         if re.search(r"ignoring (forall|exists)", m):
             return {"status": "error", "seconds": dt, "why": "quantifier dropped by back end: " + m}
